@@ -11,7 +11,10 @@ from . import c07_cases as G
 PROPS_MODULE = "NessaiVerif.Props.C07"
 N_THEOREMS = 42
 MANIFEST = dict(
-    text="PARTIAL: machine-checked for the affine family, oracle-only for the rest. SOURCE TIE for the primitives: "
+    text="PARTIAL: machine-checked for the affine family and the polar classes, oracle-only for the GW converters. Prime priors of the "
+         "polar classes over R: log_2d_cartesian_prior and log_3d_cartesian_prior are GENERATED from nessai/priors.py and proved equal "
+         "to original prior minus log|Jacobian| exactly (uniform / sine angle + chi(2) radius; isotropic angles + chi(3) radius: "
+         "cartesian2d_prime_prior, cartesian2d_sine_prime_prior, cartesian3d_prime_prior). SOURCE TIE for the primitives: "
          "rescale_zero_to_one, rescale_minus_one_to_one and their inverses are translated from the current source on every run "
          "(harness/pylog2lean.py -> Gen/RescaleTx.lean) and rescale_primitives_source_eq_model re-proves them equal to the "
          "model's primitives for every field and argument; determine_rescaled_bounds (prime-prior bounds: every branch on inversion and edge, offset, rescale bounds, both ValueErrors) is translated in continuation style and determine_rescaled_bounds_source_eq_model re-proves it equal to determineRescaledBounds. "
@@ -63,6 +66,13 @@ def gen(ctx):
             sp = P.FnSpec(source="nessai/utils/rescaling.py", func=f, name=f,
                           params=[("x", "x", P.LIN), ("xmin", "xmin", P.LIN), ("xmax", "xmax", P.LIN)], returns=[P.LIN, P.LOG],
                           doc="returns (value, Jacobian factor = exp of the returned log-Jacobian)")
+            lean, info = P.translate_fn(core.REPO, sp)
+            parts.append(lean)
+            infos[f] = info
+        for f, ps, df in (("log_2d_cartesian_prior", ["x", "y", "k"], ["np.pi"]), ("log_3d_cartesian_prior", ["x", "y", "z"], [])):
+            sp = P.FnSpec(source="nessai/priors.py", func=f, name=f, params=[(q, q, P.LIN) for q in ps], returns=[P.LIN],
+                          defaults=df, atoms={"np.pi": "pi"},
+                          doc="prime-space prior of the polar reparameterisations; `lg` the logarithm, `pi` the constant np.pi")
             lean, info = P.translate_fn(core.REPO, sp)
             parts.append(lean)
             infos[f] = info
